@@ -49,6 +49,13 @@ CHECKS = {
         technique="Lean 4 invariant proofs about a hand-written executable model + exhaustive differential correspondence + independent oracle",
         ref="DESIGN.md §5 C02",
     ),
+    "C18": dict(
+        category="proof",
+        text="Exact rational model of the threshold rules, the 256-bin Otsu routine (including numpy's NaN-wins argmax rule for constant images) and the remove_small loop. Theorems: 'extrema'/'auto', 'mean' and a mapped numeric threshold commute with every positive affine map and the binary image (strict >) is unchanged (threshold_affine); Otsu's histogram bins and bin centres are affine-invariant (binIdx_affine, center_affine); the selected Otsu index carries a variance no other split exceeds (otsu_is_argmax) and an empty class wins (otsu_nan_rule); the reversed-index pop loop equals filter(radius > min) for every list (removeSmall_eq_filter). Correspondence on dyadic-valued fields (float evaluation exact): the mask handed to locate_droplets_in_mask (tapped) equals data > model threshold, threshold_otsu equals the model's bin centre exactly, results equal locating in the thresholded image, are invariant under exact affine maps, and the size filter is exact - on Cartesian 1-3-D, polar, spherical and cylindrical grids.",
+        note="Trusted: Lean kernel; propext/Classical.choice/Quot.sound; correspondence harness; numpy histogram/linspace/mean evaluate exactly on the dyadic data used (stated assumption); full affine invariance of the Otsu argmax is proved up to the bin/centre lemmas and checked on the implementation.",
+        technique="Lean 4 theorems about a hand-written exact model + exact differential correspondence on dyadic data",
+        ref="DESIGN.md §5 C18",
+    ),
 }
 
 NOT_APPLICABLE = {}
